@@ -22,6 +22,8 @@
 //                 l = image before the step (first step: voxels that no LOR sees set to 0, fill_nonidentifiable_target_parameters)
 //              0 <= U_k <= upper bound and finite after every sub-iteration (all configurations).
 //   restart  : all images of the resumed run == those of the uninterrupted run (bitwise; see assumptions for the one weakening).
+//   re-use   : histories of 2 (thorough: 3) runs on ONE reconstruction + objective function (+ prior) object, with and without setter calls between the runs, all pairs of
+//              run settings over a small alphabet; every run satisfies 'denominator' and 'per step' for its own settings and equals freshly built objects (see run_reuse).
 #include "vmc.h"
 #include "stir_small.h"
 #include "ref_recon.h"
@@ -739,8 +741,10 @@ static void run_reuse(vmc::Ctx& ctx, const std::vector<Cfg>& runs)
         const uint64_t hh = vmc::fnv(hprefix);
         if (i > 0 || first_runs_seen.insert(hh).second)
           {
+            // (the first run of a history is the run of freshly built objects: where run_cfg has visited that state in this process already it is not counted again)
+            const long long before = ctx.counters["distinct_nontrivial"];
             for (size_t k = 0; k < R.snaps.size(); ++k) ctx.nontrivial(vmc::fnv(R.snaps[k].data(), R.snaps[k].size() * sizeof(float), vmc::fnv(vmc::str((int)k), hh)));
-            ctx.count("states", (long long)R.snaps.size());
+            ctx.count("states", ctx.counters["distinct_nontrivial"] - before); // a triple continues a pair: states visited before in this process are not counted again
           }
       }
 
